@@ -285,6 +285,7 @@ struct Ctx {
   bool defer_sched = false;     // schedule() operations become pending events
   bool lvalue_connect = false;  // erased nodes connect their sender as a non-const lvalue (see snode)
   bool lvalue_ctx = true;       // the innermost erased connect in progress is an lvalue connect
+  bool sched_honours_stop = false;   // tag_sched::schedule() answers set_done when its receiver's stop token has been triggered (as manual_event_loop / inline_scheduler do)
   int rv_depth = 0;             // number of rvalue connects of erased nodes in progress (declared noexcept in the EX_NX build)
   int cur_ctx = 0;              // context tag of whoever is running right now (0 = driver / foreign)
   std::map<int, kit::AllocLedger> ledgers;
@@ -390,6 +391,7 @@ struct tag_sched::sender {
       if constexpr (std::is_invocable_v<get_custom_fn, const R&>) s.custom = get_custom(r); else s.custom = -1;
       s.stop_possible = unifex::get_stop_token(r).stop_possible();
       g->sched_seen.push_back(s);
+      if (g->sched_honours_stop && unifex::get_stop_token(r).stop_requested()) { done_ = true; unifex::set_done(std::move(r)); return; }
       if (!g->defer_sched) { run(); return; }
       g->pending.push_back(Pending{-1, tag, [this] { run(); }, true});
     }
